@@ -63,6 +63,15 @@ let handle (fs : string list) : string =
        | "render" -> (match default_f t with Ok s -> field_of_str s | Raise _ -> "!raise")
        | "plugin" -> field_of_str (plugin_f t)
        | _ -> "!badcmd")
+  | ["setid"; nodes] ->
+      (* nodes: base|tag;base|tag;...  (make_id(name), make_id(tagname)) *)
+      let ns = if nodes = "." then [] else
+        List.map (fun x -> match String.split_on_char '|' x with
+                           | [b; t] -> (str_of_field b, str_of_field t)
+                           | _ -> failwith "bad node") (String.split_on_char ';' nodes) in
+      (match assign_ids ns [] [] with
+       | Raise _ -> "!OutOfFuel"
+       | Ok l -> field_of_strs l)
   | _ -> "!badcmd"
 
 let () = main handle
